@@ -52,6 +52,8 @@ def run(repo: Repo, tier: str, res: CheckResult, seed: int = 0) -> None:
             res.add(Finding("C01", known_rt[f.rule], f.file, f.qualname, f.construct, f.message, f.line))
     enum_tables_agree(repo, res)
     facade_caches_agree(repo, res)
+    shared_codec_audits(repo, res)
+    integration_codecs_use_the_column_type(repo, res)
     res.assumptions = list(ASSUMPTIONS)
 
 
@@ -291,3 +293,57 @@ def timestamp_zone_agreement(repo: Repo, res: CheckResult) -> None:
                                     f"the dumper of {ci.name} takes the timestamp in UTC but `{norm(c)[:60]}` reads it in the local time zone: "
                                     "with a negative UTC offset load(dump(d)) is the day before d", c.lineno))
     res.count("REPR.timestamp-providers", n, 2)
+
+
+def shared_codec_audits(repo: Repo, res: CheckResult) -> None:
+    """Audits other properties own, reported here as round-trip clauses: (a) the generated model loader and dumper are memoised
+    per retort; the name layout decides the keys both of them use, so it must be part of both memo keys (C11: a dependency
+    wrapped into an always-equal object) -- otherwise one model used under two name mappings is dumped with the keys of the
+    first and loaded with its own; (b) the flag-by-member-names codec: the dumper's cover of the value and the loader's union
+    agree (C18)."""
+    from ..values import Resolver
+    from . import c11, c18
+    sub = CheckResult("C11")
+    c11.cached_call_sites(repo, Resolver(repo), sub)
+    res.evaluated("roundtrip:model-codec-memo-keys", True)
+    for f in sub.findings:
+        if f.rule == "KEY.always-equal" and "/morphing/model/" in f.file:
+            res.add(Finding("C01", "ROUNDTRIP.model-codec-memo-ignores-layout", f.file, f.qualname, f.construct,
+                            "the memo key of a generated model codec ignores something its output depends on: a model used at two "
+                            "locations with different name mappings gets ONE dumper (or loader), built for whichever location was "
+                            "requested first, while its partner is built per layout -- load(dump(x)) fails on the other location. "
+                            + f.message[:160], f.line))
+    sub2 = CheckResult("C18")
+    m18 = repo.mod(c18.EP)
+    c18.flag_list_dumper(repo, m18, sub2)
+    c18.same_cases(repo, m18, sub2)
+    res.evaluated("roundtrip:flag-list-codec", True)
+    for f in sub2.findings:
+        res.add(Finding("C01", "ROUNDTRIP.flag-list-codec", f.file, f.qualname, f.construct,
+                        "flag_by_member_names: what the dumper emits for a value is not what the loader turns back into that value. "
+                        + f.message[:220], f.line))
+
+
+def integration_codecs_use_the_column_type(repo: Repo, res: CheckResult) -> None:
+    """integrations/sqlalchemy AdaptixJSON stores a value of the declared type `tp`: binding dumps with the dumper OF tp and the
+    result is loaded with the loader OF tp. A dump chosen by the class of the value (`retort.dump(value)` without the type)
+    picks another codec than the loader's whenever tp is not that class (list[...], NewType with its own codec, tuples)."""
+    try:
+        m = repo.mod("integrations/sqlalchemy/orm")
+    except AnalysisError:
+        return
+    ci = m.classes.get("AdaptixJSON")
+    if ci is None:
+        raise AnalysisError("anchor vanished: AdaptixJSON")
+    res.evaluated("roundtrip:sqlalchemy-json-type", True)
+    for mname in ("process_bind_param", "process_result_value", "process_literal_param"):
+        fn = ci.methods.get(mname)
+        if fn is None:
+            continue
+        for c in [x for x in ast.walk(fn) if isinstance(x, ast.Call) and isinstance(x.func, ast.Attribute) and x.func.attr in ("dump", "load")]:
+            n_args = len(c.args) + len(c.keywords)
+            if n_args < 2:
+                res.add(Finding("C01", "ROUNDTRIP.integration-codec-untyped", m.rel, f"AdaptixJSON.{mname}", norm(c),
+                                f"`{norm(c)}` chooses the codec by the class of the value, the other direction uses the declared type "
+                                "`tp`: for a column declared as list[Point], a NewType with its own codec or a tuple the stored "
+                                "representation is not the one the loader expects", c.lineno))
